@@ -451,7 +451,7 @@ func (e *SpecEnv) trCall(x *ast.CallExpr) Term {
 			e.fail("unchanged: not a map")
 		}
 		return Term{S: and(eq(sel(fx.H(e.cur, mi.Dom), m.S), sel(fx.H(e.old, mi.Dom), m.S)), eq(sel(fx.H(e.cur, mi.Val), m.S), sel(fx.H(e.old, mi.Val), m.S))), Sort: "Bool"}
-	case "allocated", "fresh":
+	case "allocated", "fresh", "existed":
 		need(1)
 		r := e.tr(args[0])
 		srt := r.Sort
@@ -465,6 +465,9 @@ func (e *SpecEnv) trCall(x *ast.CallExpr) Term {
 		}
 		if name == "allocated" {
 			return Term{S: sel(fx.H(e.cur, al), sterm), Sort: "Bool"}
+		}
+		if name == "existed" { // the object (current value of the expression) was already allocated in the old state
+			return Term{S: sel(fx.H(e.old, al), sterm), Sort: "Bool"}
 		}
 		return Term{S: and(not(sel(fx.H(e.old, al), sterm)), sel(fx.H(e.cur, al), sterm)), Sort: "Bool"}
 	case "captured":
@@ -529,6 +532,31 @@ func (e *SpecEnv) trCall(x *ast.CallExpr) Term {
 			}
 		}
 		return Term{S: and(conj...), Sort: "Bool"}
+	case "sliceskeptx":
+		// sliceskeptx([]T, s): every old backing array except the one of (old) slice s is unchanged,
+		// and the elements of s below its old length are unchanged
+		need(2)
+		_, t := fx.typeFromString(exprString(args[0]), e.pkgOrDefault())
+		et := sliceElemType(t)
+		if et == nil {
+			e.fail("sliceskeptx: not a slice type")
+		}
+		comp := fx.reg.sliceComp(et)
+		sub := *e
+		if sub.now == nil {
+			sub.now = e.cur
+		}
+		sub.cur = e.old
+		sv := sub.tr(args[1])
+		fx.nq++
+		r := fmt.Sprintf("r!q%d", fx.nq)
+		i := fmt.Sprintf("i!q%d", fx.nq)
+		cur, old := fx.H(e.cur, comp), fx.H(e.old, comp)
+		return Term{S: and(
+			fmt.Sprintf("(forall ((%s SRef)) (! (=> (and (select %s %s) (not (= %s (sref %s)))) (= (select %s %s) (select %s %s))) :pattern ((select %s %s))))",
+				r, fx.H(e.old, "AL_SRef"), r, r, sv.S, cur, r, old, r, cur, r),
+			fmt.Sprintf("(forall ((%s Int)) (=> (and (<= (soff %s) %s) (< %s (+ (soff %s) (slen %s)))) (= (select (select %s (sref %s)) %s) (select (select %s (sref %s)) %s))))",
+				i, sv.S, i, i, sv.S, sv.S, cur, sv.S, i, old, sv.S, i)), Sort: "Bool"}
 	case "sliceskept":
 		// sliceskept([]T): every backing array that existed in the old state is unchanged
 		need(1)
